@@ -277,13 +277,93 @@ def driveTree (t : Option TState) : List String → Option (Option TState × Str
     | .unm => pure (none, "unm")
   | _ => none
 
-def step (t : Option TState) (fs : List String) : Option TState × String :=
-  match drivePure fs with
-  | some o => (t, o)
-  | none =>
-    match driveTree t fs with
-    | some r => r
-    | none => (t, "bad-op")
+/-- state of the lazy layer -/
+structure LState where
+  cid : ClassId
+  pr : Char → Bool
+  dflt : Val
+  kind : Kind
+  base : Str
+  ls : LSt Val
 
-def handler : Driver.Handler := { σ := Option TState, init := none, step := step }
+def LState.cls (t : LState) : Cls Val := t.cid.cls t.pr t.dflt
+
+def driveLazy (t : Option LState) : List String → Option (Option LState × String)
+  | ["l_boot", k, p, d, nv, cv, b, cache] => do
+    let cid ← classOf k
+    let pr ← prOf p
+    let d ← decVal d
+    let nv ← decBool nv
+    let cv ← decBool cv
+    let b ← dec b
+    let cache ← decPairs cache
+    match boot (cid.cls pr d) ⟨nv, cv⟩ b (cacheOf cache) with
+    | .up s => pure (some ⟨cid, pr, d, ⟨nv, cv⟩, b, ⟨s, false, []⟩⟩, "up")
+    | .refused => pure (none, "refused")
+    | .unm => pure (none, "unm")
+  | "l_set" :: text :: w => do
+    let t ← t
+    let w ← decWhere w
+    let text ← dec text
+    let (s, o) := t.ls.setText t.cls t.cid.strCalls t.base w text
+    pure (some { t with ls := s }, encOut encVal o)
+  | "l_setv" :: v :: w => do
+    let t ← t
+    let w ← decWhere w
+    let v ← decVal v
+    let (s, o) := t.ls.setVal t.cls t.cid.strCalls t.base w (t.cid.setValue v)
+    pure (some { t with ls := s }, encOut encVal o)
+  | ["l_reset_chan", n, c] => do
+    let t ← t
+    let n ← decOpt n
+    let c ← dec c
+    let (s, o) := t.ls.resetChannel t.cls t.cid.strCalls t.base n c
+    pure (some { t with ls := s }, encOut encVal o)
+  | ["l_reset_net", n] => do
+    let t ← t
+    let n ← dec n
+    let (s, o) := t.ls.resetNetwork t.cls t.cid.strCalls t.base n
+    pure (some { t with ls := s }, encOut encVal o)
+  | ["l_get", n, c, nok, cok] => do
+    let t ← t
+    let n ← decOpt n
+    let c ← decOpt c
+    let nok ← decBool nok
+    let cok ← decBool cok
+    let (s, o) := t.ls.getSpecific t.cls t.cid.strCalls t.kind t.base n c nok cok
+    pure (some { t with ls := s }, encOut encVal o)
+  | ["l_dump"] => do
+    let t ← t
+    pure (some t, encDump (t.ls.st.var.dump t.base))
+  | ["l_save"] => do
+    let t ← t
+    let (s, written) := t.ls.save t.cls t.cid.strCalls t.base
+    let entries : List Entry := written.filterMap fun nv => nv.2.map fun v => ⟨[], nv.1, t.cid.serializeAt t.pr nv.1 v⟩
+    pure (some { t with ls := s }, enc (fileText entries))
+  | ["l_reopen", text, clear] => do
+    let t ← t
+    let text ← dec text
+    let clear ← decBool clear
+    match readRegistry text with
+    | .ok as => pure (some { t with ls := t.ls.reopen as clear }, "ok")
+    | .invalid => pure (some t, "invalid")
+    | .unm => pure (some t, "unm")
+  | _ => none
+
+structure DState where
+  tree : Option TState
+  lz : Option LState
+
+def step (d : DState) (fs : List String) : DState × String :=
+  match drivePure fs with
+  | some o => (d, o)
+  | none =>
+    match driveTree d.tree fs with
+    | some (t, o) => ({ d with tree := t }, o)
+    | none =>
+      match driveLazy d.lz fs with
+      | some (l, o) => ({ d with lz := l }, o)
+      | none => (d, "bad-op")
+
+def handler : Driver.Handler := { σ := DState, init := ⟨none, none⟩, step := step }
 end C15
